@@ -468,6 +468,10 @@ fn build_and_observe(
 
 // ------------------------------------------------------------------------------------------- random programs
 fn rand_data_op(rng: &mut Rng, name: &str, cs: u64) -> Value {
+    rand_data_op_n(rng, name, cs, 40)
+}
+/// `maxchunks`: keep the number of chunks (table size in the trace) moderate
+fn rand_data_op_n(rng: &mut Rng, name: &str, cs: u64, maxchunks: u64) -> Value {
     // lengths around the chunk size, small ones, and up to 300 KiB
     let len = match rng.below(10) {
         0 => 0,
@@ -482,7 +486,8 @@ fn rand_data_op(rng: &mut Rng, name: &str, cs: u64) -> Value {
         _ => rng.below(300 * 1024 + 1),
     };
     // keep the number of chunks (table size in the trace) moderate
-    let len = len.min(cs * 40).min(300 * 1024);
+    let len = if maxchunks > 40 && rng.chance(1, 2) { cs * (200 + rng.below(maxchunks - 200)) + rng.below(2) } else { len };
+    let len = len.min(cs * maxchunks).min(512 * 1024);
     let pat = *rng.pick(&["rand", "rand", "text", "rep", "inc"]);
     let fb = *rng.pick(&["r", "r", "r", "N", "Z", "4", "E", "F"]);
     json!({"op": name, "len": len, "pat": pat, "fb": fb, "seed": rng.below(1 << 30)})
@@ -512,6 +517,7 @@ fn random_program(rng: &mut Rng) -> Value {
     let mut ops = vec![];
     let mut cs: u64 = 256 * 1024;
     let mut nchunks_guess: u64 = 0;
+    let mut many_used = false;
     let n = 1 + rng.below(8);
     for _ in 0..n {
         let op = match rng.below(100) {
@@ -530,7 +536,16 @@ fn random_program(rng: &mut Rng) -> Value {
                 o
             }
             30..=34 => json!({"op": "without_encryption"}),
-            35..=59 => rand_data_op(rng, "add_data", cs),
+            35..=59 => {
+                // once per program (1 in 6) a payload of 200..500 chunks: the whole container stays below the
+                // 1024 chunks from which the driver records summaries only
+                if !many_used && cs <= 1500 && rng.chance(1, 6) {
+                    many_used = true;
+                    rand_data_op_n(rng, "add_data", cs, 500)
+                } else {
+                    rand_data_op(rng, "add_data", cs)
+                }
+            }
             60..=74 => {
                 let mut o = rand_data_op(rng, "add_mixed_data", cs);
                 rand_cipher(rng, &mut o, true);
